@@ -373,15 +373,21 @@ func TestStatsEqualRecount(t *testing.T) {
 					}
 					pkts = append(pkts, sr)
 					types["SR"] = true
-				case 2: // XR with a DLRR sub-block naming one of the remote streams
-					ssrc := pickSSRC(t, "dlrrssrc", false)
-					d := rtcp.DLRRReport{SSRC: ssrc, DLRR: rapid.OneOf(rapid.Uint32Range(0, 65536), rapid.Just(uint32(0))).Draw(t, "dlrr")}
-					if m := models[ssrc]; m != nil && len(m.lastRRTRs) > 0 && rapid.IntRange(0, 3).Draw(t, "lrrKnown") != 0 {
-						d.LastRR = uint32(m.lastRRTRs[rapid.IntRange(0, len(m.lastRRTRs)-1).Draw(t, "which")] >> 16) //nolint:gosec
-					} else {
-						d.LastRR = rapid.Uint32().Draw(t, "lrr")
+				case 2: // XR with a DLRR block: 1-3 sub-blocks naming remote streams (or foreign SSRCs)
+					var subs []rtcp.DLRRReport
+					for k, nsub := 0, rapid.IntRange(1, 3).Draw(t, "dlrrSubs"); k < nsub; k++ {
+						ssrc := pickSSRC(t, "dlrrssrc", false)
+						d := rtcp.DLRRReport{SSRC: ssrc, DLRR: rapid.OneOf(rapid.Uint32Range(0, 65536), rapid.Just(uint32(0))).Draw(t, "dlrr")}
+						if m := models[ssrc]; m != nil && len(m.lastRRTRs) > 0 && rapid.IntRange(0, 3).Draw(t, "lrrKnown") != 0 {
+							d.LastRR = uint32(m.lastRRTRs[rapid.IntRange(0, len(m.lastRRTRs)-1).Draw(t, "which")] >> 16) //nolint:gosec
+						} else if len(remotes) > 0 && len(remotes[0].m.lastRRTRs) > 0 && rapid.Bool().Draw(t, "lrrOfOther") {
+							d.LastRR = uint32(remotes[0].m.lastRRTRs[len(remotes[0].m.lastRRTRs)-1] >> 16) //nolint:gosec
+						} else {
+							d.LastRR = rapid.Uint32().Draw(t, "lrr")
+						}
+						subs = append(subs, d)
 					}
-					pkts = append(pkts, &rtcp.ExtendedReport{SenderSSRC: 7, Reports: []rtcp.ReportBlock{&rtcp.DLRRReportBlock{Reports: []rtcp.DLRRReport{d}}}})
+					pkts = append(pkts, &rtcp.ExtendedReport{SenderSSRC: 7, Reports: []rtcp.ReportBlock{&rtcp.DLRRReportBlock{Reports: subs}}})
 					types["XR"] = true
 				default:
 					k := rapid.IntRange(0, 2).Draw(t, "fbkind")
